@@ -35,7 +35,7 @@ func RunProperty(o Options) (int, error) {
 	if o.Tier == "thorough" {
 		timeout = 60
 	}
-	env := &Env{Repo: repo, RepoDir: o.Repo, VerifDir: o.Verif, Tier: o.Tier, Seed: o.Seed, Solver: o.Solver, Timeout: timeout, Workers: o.Workers,
+	env := &Env{Repo: repo, RepoDir: o.Repo, VerifDir: o.Verif, Tier: o.Tier, Prop: o.Prop, Seed: o.Seed, Solver: o.Solver, Timeout: timeout, Workers: o.Workers,
 		KF: LoadKnown(filepath.Join(o.Verif, "known_findings.json"))}
 	defer env.Close()
 	pr := &PropResult{ID: o.Prop, Extra: map[string]any{}}
@@ -49,6 +49,10 @@ func RunProperty(o Options) (int, error) {
 			hh.ID, r.Instances, r.Stats.Paths, r.Stats.Steps, len(r.Stats.Obligations), r.Stats.Count("discharged"), r.Stats.Count("violated"), r.Stats.Count("inconclusive"),
 			r.Stats.Queries, r.Stats.SolverTime.Seconds(), r.Wall.Seconds())
 		for _, v := range r.Viol {
+			if !v.concerns(o.Prop) {
+				pr.Other = append(pr.Other, fmt.Sprintf("%s (%s) %s", v.Property, v.Harness, v.Label))
+				continue
+			}
 			if v.Confirmed {
 				pr.Viol = append(pr.Viol, v)
 			} else {
@@ -58,6 +62,11 @@ func RunProperty(o Options) (int, error) {
 		pr.Known = append(pr.Known, r.Known...)
 		for _, m := range uniq(append(append([]string(nil), r.Stats.Inconclusive...), r.Inconcl...)) {
 			fmt.Printf("INCONCLUSIVE property=%s harness=%s %s\n", o.Prop, hh.ID, short(m, 300))
+		}
+		for i, u := range r.Stats.Unwinding {
+			if i < 3 {
+				fmt.Printf("UNWINDING harness=%s %s model=%v stack-tail=%v\n", hh.ID, u.Msg, u.Model, tail(u.Stack, 4))
+			}
 		}
 		for _, v := range r.Vacuous {
 			fmt.Printf("INCONCLUSIVE property=%s harness=%s instance %s never reached its assertion with a satisfiable path (vacuous)\n", o.Prop, hh.ID, v)
@@ -99,5 +108,12 @@ func RunProperty(o Options) (int, error) {
 
 func init() {
 	Properties["C13"] = func(env *Env) []*Harness { return []*Harness{HExported()} }
-	Properties["C20"] = func(env *Env) []*Harness { return []*Harness{HPairName()} }
+	Properties["C20"] = func(env *Env) []*Harness { return []*Harness{HPairName(), HMock()} }
+}
+
+func tail(ss []string, n int) []string {
+	if len(ss) > n {
+		return ss[len(ss)-n:]
+	}
+	return ss
 }
